@@ -13,7 +13,10 @@
 //	    hex characters, with 1..5 comments whose operation ids were mined the same way (across bugs and inside one bug): every prefix
 //	    length 0..64 of every id through ResolvePrefix/ResolveExcerptPrefix and of every comment's
 //	    combined id (and crossed / perturbed variants) through ResolveComment; and the command-layer
-//	    resolver _select.Resolve for every selection state x every prefix of every bug id.
+//	    resolver _select.Resolve for every selection state x every prefix of every bug id;
+//	(d) growing populations behind one long-lived cache: entities with mined shared prefixes arrive
+//	    (created through the cache, pulled) and leave in every order, resolutions interleaved at every
+//	    subset of positions.
 package c13
 
 import (
@@ -99,7 +102,7 @@ func merge(dst map[string]int, src map[string]int, prefix string) {
 func Main(args []string) {
 	fs := flag.NewFlagSet("C13", flag.ExitOnError)
 	replay := fs.String("replay", "", "replay file")
-	only := fs.String("only", "", "run only part a, b or c (debugging; evidence says so)")
+	only := fs.String("only", "", "run only part a, b, c or d (debugging; evidence says so)")
 	fs.Parse(args)
 
 	scratch := world.ScratchRoot()
@@ -118,9 +121,9 @@ func Main(args []string) {
 	col := newCollector()
 	start := time.Now()
 
-	realPops, engMax := 8, 4
+	realPops, engMax, growEntities, growEvents := 8, 4, 3, 3
 	if tier == "thorough" {
-		realPops, engMax = 32, 5
+		realPops, engMax, growEntities, growEvents = 32, 5, 4, 4
 	}
 
 	outcomes := map[string]int{}
@@ -152,6 +155,7 @@ func Main(args []string) {
 	run("a", func() partResult { return partA(col) })
 	run("b", func() partResult { return partB(col, scratch, engMax) })
 	run("c", func() partResult { return partC(col, scratch, seed, realPops) })
+	run("d", func() partResult { return partD(col, scratch, seed, growEntities, growEvents) })
 
 	col.flush(rep)
 
@@ -180,6 +184,7 @@ func Main(args []string) {
 			"(c) reduced space: real populations of 6 bugs (three sharing 3 leading hex characters, one sharing 2, one sharing 1, one sharing none) with 1..5 comments (one bug holds comments whose operation ids share exactly 1, 2 and 3 leading characters) and 3 identities (sharing 2 and 1 leading characters), found by mining with the deterministic nonce seam; thorough runs more such populations",
 			"a prefix matched by several comments (of one bug or of several) does not identify a single comment: any error is accepted, a successful resolution is a violation",
 			"the error type for an unknown comment is not fixed by the statement (any error accepted)",
+			"(d) growing populations: one long-lived RepoCache per run; a pool of 3 (thorough 4) real bugs, and separately of 3 (4) real identities, with mined shared prefixes (two share 3 leading characters, the others 2) arrives by Bugs().NewRaw / Identities().NewRaw (ids reproduced through the nonce seam) and by pull (Fetch+MergeAll from a remote holding exactly that entity) and leaves by Remove; all event sequences of 3 (4) events x every set of positions after which everything is resolved (the last always); the reference is 0/1/many over the population at that moment",
 			"command layer (_select.Resolve as commands/bug calls it, on the real populations, every selection state x every prefix): a first argument that is some bug's prefix is resolved like ResolvePrefix whatever is selected (one -> that bug and the remaining arguments, several -> multiple-match error listing exactly them); an argument that is no bug's prefix, or no argument, falls back to the selection as the function documents (selected bug with the arguments untouched; nothing selected -> no-valid-id error; selection of a missing bug -> no-valid-id error and the selection cleared); the empty string as argument is a prefix like any other",
 		},
 		WallS: time.Since(start).Seconds(), Violations: rep.Viol, Known: rep.KnownSeen()}
@@ -220,6 +225,8 @@ func runReplay(path, scratch string) int {
 		herr = replayB(col, scratch, f.Replay)
 	case "c":
 		herr = replayC(col, scratch, f.Replay)
+	case "d":
+		herr = replayD(col, scratch, f.Replay)
 	default:
 		herr = fmt.Errorf("unknown part %v", f.Replay["part"])
 	}
